@@ -21,11 +21,16 @@ fn net(key: u8, slow_ms: u64) -> anemo::Network {
     anemo::Network::bind("127.0.0.1:0").server_name("verif").private_key([key; 32]).config(c).start(service(slow_ms)).expect("network")
 }
 /// version preamble + length-prefixed bincode header (route, no headers) + length-prefixed body
-pub fn encode_request(route: &str, body: &[u8]) -> Vec<u8> {
+pub fn encode_request(route: &str, body: &[u8]) -> Vec<u8> { encode_request_with(route, &[], body) }
+pub fn encode_request_with(route: &str, headers: &[(&str, &str)], body: &[u8]) -> Vec<u8> {
     let mut h = Vec::new();
     h.extend_from_slice(&(route.len() as u64).to_le_bytes());
     h.extend_from_slice(route.as_bytes());
-    h.extend_from_slice(&0u64.to_le_bytes());
+    h.extend_from_slice(&(headers.len() as u64).to_le_bytes());
+    for (k, v) in headers {
+        h.extend_from_slice(&(k.len() as u64).to_le_bytes()); h.extend_from_slice(k.as_bytes());
+        h.extend_from_slice(&(v.len() as u64).to_le_bytes()); h.extend_from_slice(v.as_bytes());
+    }
     let mut m = b"anemo\x00\x01\x00".to_vec();
     m.extend_from_slice(&(h.len() as u32).to_be_bytes());
     m.extend_from_slice(&h);
@@ -153,4 +158,39 @@ pub async fn hostile_streams(a: &Value) -> Value {
     let (final_ok, _) = probe(&honest, s.peer_id(), "final", limit_ms).await;
     drop(keep_send); drop(keep_recv);
     json!({"steps": steps, "slow_rpc_ok": slow_ok, "both_still_connected": still, "final_rpc_ok": final_ok, "limit_ms": limit_ms, "slow_ms": slow_ms})
+}
+
+/// C11, serving side, with a caller that is NOT anemo (so nothing on the calling side enforces the header): a request carrying a timeout header
+/// of `header_ms` to a server whose handler needs `handler_ms`, with or without a configured inbound default.
+pub async fn header_only_deadline(a: &Value) -> Value {
+    let handler_ms = a["handler_ms"].as_u64().unwrap();
+    let slow = tower::ServiceExt::boxed_clone(tower::service_fn(move |r: Request<Bytes>| async move {
+        tokio::time::sleep(Duration::from_millis(handler_ms)).await;
+        Ok::<_, std::convert::Infallible>(Response::new(r.into_body()))
+    }));
+    let mut cfg = Config::default();
+    cfg.inbound_request_timeout_ms = a.get("server_inbound_ms").and_then(|x| x.as_u64());
+    let server = anemo::Network::bind("127.0.0.1:0").server_name("verif").private_key([51; 32]).config(cfg).start(slow).expect("server");
+    let (ep, _public) = raw_client(52, "verif");
+    let conn = match tokio::time::timeout(Duration::from_secs(3), ep.connect(server.local_addr(), "verif").expect("connect")).await {
+        Ok(Ok(c)) => c,
+        _ => return json!({"setup_failed": "the raw client could not connect"}),
+    };
+    if let Ok(Ok(mut rx)) = tokio::time::timeout(Duration::from_secs(2), conn.accept_uni()).await { let mut b = [0u8; 8]; let _ = rx.read_exact(&mut b).await; }
+    let ns = a.get("header_ms").and_then(|x| x.as_u64()).map(|ms| (ms * 1_000_000).to_string());
+    let headers: Vec<(&str, &str)> = match &ns { Some(v) => vec![("timeout", v.as_str())], None => vec![] };
+    let t0 = Instant::now();
+    let fut = async {
+        let (mut tx, mut rx) = conn.open_bi().await.ok()?;
+        tx.write_all(&encode_request_with("/x", &headers, b"hello")).await.ok()?;
+        tx.finish().ok()?;
+        decode_response(&rx.read_to_end(1 << 20).await.ok()?)
+    };
+    let r = tokio::time::timeout(Duration::from_millis(handler_ms + 3000), fut).await;
+    let ms = t0.elapsed().as_millis() as u64;
+    match r {
+        Ok(Some((status, _))) => json!({"outcome": "response", "status": status, "elapsed_ms": ms}),
+        Ok(None) => json!({"outcome": "no-response", "elapsed_ms": ms}),
+        Err(_) => json!({"outcome": "hung", "elapsed_ms": ms}),
+    }
 }
